@@ -218,6 +218,13 @@ def run_job(job, mods):
 
 
 def main():
+    import resource
+
+    # a printer that loses sharing builds exponentially large strings: bound the damage
+    try:
+        resource.setrlimit(resource.RLIMIT_AS, (3 << 30, 3 << 30))
+    except (ValueError, OSError):
+        pass
     doc = json.load(sys.stdin)
     real_stdout = sys.stdout
     sys.stdout = sys.stderr  # the repo prints diagnostics (format_cpp, get_like) on stdout
@@ -234,7 +241,7 @@ def main():
         raise JobTimeout()
 
     signal.signal(signal.SIGALRM, on_alarm)
-    limit = int(doc.get("job_timeout", 6))
+    limit = int(doc.get("job_timeout", 3))
     for job in doc["jobs"]:
         # clang-format only re-flows white space; generated graphs skip the subprocess (speed),
         # shipped functions keep the real formatter when asked to.
@@ -242,6 +249,8 @@ def main():
         signal.alarm(limit)
         try:
             out.append(run_job(job, mods))
+        except MemoryError:
+            out.append(dict(text=None, exc="Timeout", exc_msg="printing exhausted the memory limit", warn=[], dump=None))
         except JobTimeout:
             # printing one graph normally takes milliseconds; a blow-up (e.g. sharing lost) must not stall the check
             out.append(dict(text=None, exc="Timeout", exc_msg=f"printing took more than {limit}s", warn=[], dump=None))
